@@ -218,7 +218,7 @@ def run(ctx):
         # ones the model does not know) is a scheduling point; all schedules with one forced switch + random
         # ones with two; judged by the oracle only. Larger when the AST tie is already broken.
         n_scen = len(H.coarse_scenarios())
-        n_two = 400 if ctx.thorough else (150 if not strict_ok else 30)
+        n_two = 400 if ctx.thorough else (150 if not strict_ok else 20)
         cdeadline = time.time() + (240 if ctx.thorough else 40)
         cjobs = [([i], n_two, rng.randrange(1 << 30), cdeadline) for i in range(n_scen)]
         for sm in pool.map(H.worker_coarse, cjobs):
